@@ -30,7 +30,7 @@ type c03Asm struct {
 	fixups map[int]string
 }
 
-var c03Opcodes = map[string]byte{"STOP": 0x00, "ADD": 0x01, "GT": 0x11, "ISZERO": 0x15, "AND": 0x16, "SHR": 0x1c, "CALLDATALOAD": 0x35,
+var c03Opcodes = map[string]byte{"STOP": 0x00, "ADD": 0x01, "GT": 0x11, "EQ": 0x14, "SLOAD": 0x54, "SSTORE": 0x55, "ISZERO": 0x15, "AND": 0x16, "SHR": 0x1c, "CALLDATALOAD": 0x35,
 	"CALLDATASIZE": 0x36, "CALLDATACOPY": 0x37, "CODECOPY": 0x39, "POP": 0x50, "JUMP": 0x56, "JUMPI": 0x57, "GAS": 0x5a, "JUMPDEST": 0x5b,
 	"LOG1": 0xa1, "DUP1": 0x80, "DUP2": 0x81, "DUP3": 0x82, "DUP5": 0x84, "DUP6": 0x85, "DUP8": 0x87, "SWAP2": 0x91, "CALL": 0xf1, "RETURN": 0xf3, "REVERT": 0xfd}
 
@@ -85,6 +85,19 @@ func c03EmitterRuntime() []byte {
 	a.code = append(a.code, 0x7f)                              // PUSH32 topic
 	a.code = append(a.code, crypto.Keccak256([]byte("PacketSent(bytes)"))...)
 	a.op("CALLDATASIZE").push1(0).op("LOG1", "STOP")
+	return a.bytes()
+}
+
+// c03SwitchRuntime: a callback contract with a switch. A call with exactly one byte of calldata stores that byte in slot 0;
+// any other call (the endpoint's `callback(...)` of an acknowledgement) reverts while slot 0 is non-zero and does nothing otherwise.
+func c03SwitchRuntime() []byte {
+	a := &c03Asm{labels: map[string]int{}, fixups: map[int]string{}}
+	a.op("CALLDATASIZE").push1(1).op("EQ").pushLabel("set").op("JUMPI")
+	a.push1(0).op("SLOAD").pushLabel("fail").op("JUMPI", "STOP")
+	a.label("set")
+	a.push1(0).op("CALLDATALOAD").push1(0xf8).op("SHR").push1(0).op("SSTORE", "STOP")
+	a.label("fail")
+	a.push1(0).push1(0).op("REVERT")
 	return a.bytes()
 }
 
